@@ -24,6 +24,10 @@ def warm(ctx):
 
 
 def replay_harness(ctx, casefile, toks):
+    if toks and toks[0] == 3:
+        # an overlap case: re-executed with the same prefix, scripts and post operations
+        return ctx.go_test(PKG, "TestVerifC14ReplayOverlap$", OVERLAY,
+                           env={"VERIF_OUT": casefile, "VERIF_REPLAY_CASE": " ".join(map(str, toks))}, timeout=600)
     if toks and toks[0] == 1:
         # a concurrent case cannot be re-executed with the same interleaving: the recorded case is judged as is
         if os.path.exists(casefile):
@@ -85,6 +89,65 @@ def parse(t):
     return cfg, steps
 
 
+def parse_ovl(t):
+    """overlap case (kind 3) -> (cfg, [(opname, args, obs)]) with the overlap as one step"""
+    try:
+        np_, nd = t[1], t[6]
+        cfg = {"peers": np_, "low": t[2], "high": t[3], "grace": t[4], "resolution": t[5], "two_trims_in_flight": True}
+        i = 7 + 4 * nd
+        npre = t[i]
+        i += 1
+        steps = []
+
+        def obs(i):
+            cnt = t[i]
+            peers = [t[i + 1 + 3 * k: i + 4 + 3 * k] for k in range(np_)]
+            i += 1 + 3 * np_
+            k = t[i]
+            closed = [t[i + 1 + 2 * j: i + 3 + 2 * j] for j in range(k)]
+            i += 1 + 2 * k
+            return {"count": cnt, "peers(present,value,tagsum)": peers, "closed(p,c)": closed}, i
+
+        def ops(n, i):
+            res = []
+            for _ in range(n):
+                name, k = OPN[t[i]]
+                res.append("%s%s" % (name, tuple(t[i + 1:i + 1 + k])))
+                i += 1 + k
+            return res, i
+
+        def pairs(i):
+            k = t[i]
+            return [t[i + 1 + 2 * j: i + 3 + 2 * j] for j in range(k)], i + 1 + 2 * k
+        while i < len(t):
+            if len(steps) == npre:
+                npre = -1
+                akind, dt, xa = t[i], t[i + 1], t[i + 2]
+                s1, i = ops(t[i + 3], i + 4)
+                pruned = t[i + 1:i + 1 + t[i]]
+                i += 1 + t[i]
+                locked = t[i + 1:i + 1 + t[i]]
+                i += 1 + t[i]
+                s2, i = ops(t[i], i + 1)
+                o, i = obs(i)
+                cla, i = pairs(i)
+                clb, i = pairs(i)
+                o["closed_by_A"], o["closed_by_background"] = cla, clb
+                steps.append(("OVERLAP<%s || background trim (clock +%d); after both snapshots: %s; %s selects first%s%s; then: %s>" % (
+                    OPN[akind][0], dt, "; ".join(s1) or "-", "A" if xa else "background",
+                    (", pruned %s" % pruned) if pruned else "", (", segments of %s held by the other" % locked) if locked else "",
+                    "; ".join(s2) or "-"), [], o))
+                continue
+            name, n = OPN[t[i]]
+            args = t[i + 1:i + 1 + n]
+            i += 1 + n
+            o, i = obs(i)
+            steps.append((name, args, o))
+        return cfg, steps
+    except (KeyError, IndexError):
+        return None
+
+
 def parse_conc(t):
     """concurrent case -> (cfg, prefix ops, worker op lists, obs)"""
     try:
@@ -122,7 +185,7 @@ def describe(t):
         if not r:
             return {"raw": t[:120]}
         return {"config": r[0], "prefix": r[1], "workers(first ops)": [w[:12] for w in r[2]], "final": r[3]}
-    r = parse(t)
+    r = parse_ovl(t) if t and t[0] == 3 else parse(t)
     if not r:
         return {"raw": t[:120]}
     cfg, steps = r
@@ -137,10 +200,10 @@ def nontrivial(line):
     if t and t[0] == 1:
         r = parse_conc(t)
         return bool(r and r[3]["closed(p,c)"])
-    r = parse(t)
+    r = parse_ovl(t) if t and t[0] == 3 else parse(t)
     if not r:
         return False
-    return any(n.startswith(("TrimOpenConns", "ForceTrim")) and o["closed(p,c)"] for n, a, o in r[1])
+    return any(n.startswith("OVERLAP") and o["closed(p,c)"] for n, a, o in r[1]) or any(n.startswith(("TrimOpenConns", "ForceTrim")) and o["closed(p,c)"] for n, a, o in r[1])
 
 
 def key(tag, toks, d):
@@ -151,7 +214,7 @@ def key(tag, toks, d):
         r = parse_conc(toks)
         return "C14:concurrent:clause=%d:low=%d:grace=%d:prefix=%s:final=%s" % (
             clause, toks[2], toks[4], ";".join(r[1]) if r else "?", (r[3] if r else "?"))
-    r = parse(toks)
+    r = parse_ovl(toks) if toks and toks[0] == 3 else parse(toks)
     if not r:
         return "C14:malformed:%s" % d
     cfg, steps = r
@@ -173,7 +236,9 @@ CLAUSE = {11: "a TrimOpenConns closed a connection of a protected peer, of a pee
           32: "a trim (racing with scripted operations) closed a connection of a peer that was inside its grace period when snapshotted",
           33: "a trim that found the count at or below the low watermark closed connections (concurrent class)",
           34: "a trim left more than low + (connections added to its candidates after their snapshot) connections on its live candidates",
-          35: "a pruned temporary entry held a connection",
+          35: "a trim deleted (pruned) an entry that held a connection or was not tracked - e.g. a delete by id through a stale pointer of an overlapping trim: "
+              "count and tag totals stop being what the notifications imply",
+          40: "a trim appeared as a plain operation inside an overlap", 42: "two trims of the same thread in flight / a close without a trim",
           36: "the sort's comparator read a torn value",
           37: "a trim closed a connection of a candidate that is inside its grace period when closed (an early-tagged candidate whose first "
               "Connected arrived after the snapshot: the selection loop must re-check firstSeen)",
@@ -215,7 +280,7 @@ if __name__ == "__main__":
     standard_flow(ctx, dict(
         coq_targets=["c14/Properties.vo", "c14/Extract.vo"],
         props="c14/Properties.v",
-        spec_module="c14.SpecConc",
+        spec_module="c14.SpecConc2",
         harness=harness,
         replay_harness=replay_harness, warm=warm,
         nontrivial=nontrivial,
